@@ -321,9 +321,9 @@ func (loop *EventLoop) Terminate() {
 	for i := 0; i < len(loop.jobs); i++ {
 		job := loop.jobs[i]
 		if !job.cancelled {
+			verifPoint(loop, "term_cancel", job)
 			job.cancelled = true
 			loop.jobCount--
-			verifPoint(loop, "term_cancel", job)
 			if job.cancel() {
 				loop.removeJob(job)
 				i--
